@@ -7,31 +7,22 @@
    comment model is absent or a single terminal (a Match node is never memoized, so no memoizable
    node is shared with the main grammar).  Each exclusion is shown necessary by a refuted theorem with
    a vm_compute witness that replays on the implementation (corpus/C19): rule modifier, eolterm, rule
-   shared with the Comment rule, Comment rule that is not a single terminal.
-
-   Full statement aimed at (C19_memo_safe): forall g in the class, forall cfg orc fuel input, the
-   un-memoized run does not abort -> run g cfg orc true fuel input = run g cfg orc false fuel input.
-   Proved below (C19_memo_safe_partial): the same, under the additional hypothesis
-   "parser-level skipws = true, or there is no Comment rule".  Missing: a Comment rule together with
-   the metamodel option skipws=False (comment_positions is then re-written on every terminal; the
-   proof would need the invariant that every entry is the value the comment loop computes). *)
+   shared with the Comment rule, Comment rule that is not a single terminal. *)
 From TxV Require Import Core.Base Model.PegSyntax Model.Peg Proofs.PegProofs Proofs.PegMemo Proofs.PegFuel.
 
 (* For every grammar in the class (sequences, ordered choice, optional, repetitions with separators,
    unordered groups, predicates, suppression, any terminals; optional single-terminal Comment rule),
-   every parser configuration with whitespace skipping on (or any configuration when there is no
-   Comment rule), every terminal oracle, every input and every fuel for which the un-memoized
-   interpreter terminates, the memoized interpreter returns exactly the same outcome: the same parse
-   tree (node ids, positions, lengths, suppress flags) on acceptance, the same error position on
-   rejection. *)
-Theorem C19_memo_safe_partial :
+   every parser configuration (skipws on or off, any ws), every terminal oracle, every input and every
+   fuel for which the un-memoized interpreter terminates, the memoized interpreter returns exactly the
+   same outcome: the same parse tree (node ids, positions, lengths, suppress flags) on acceptance, the
+   same error position on rejection. *)
+Theorem C19_memo_safe :
   forall g cfg orc fuel input,
     ctx_constant g = true ->
-    c_skipws cfg = true \/ g_comments g = None ->
     not_aborted (run g cfg orc false fuel input) ->
     run g cfg orc true fuel input = run g cfg orc false fuel input.
-Proof. intros g cfg orc fuel input Hc Hs Hn. exact (memo_safe g input orc Hc cfg fuel Hs Hn). Qed.
-Print Assumptions C19_memo_safe_partial.
+Proof. intros g cfg orc fuel input Hc Hn. exact (memo_safe g input orc Hc cfg fuel Hn). Qed.
+Print Assumptions C19_memo_safe.
 
 (* Fuel is irrelevant once it suffices (for EVERY grammar, also outside the class, and both
    memoization settings): an outcome other than "out of fuel" is the outcome for every larger fuel. *)
@@ -43,14 +34,13 @@ Proof. exact run_fuel_mono. Qed.
 Print Assumptions C19_run_fuel_mono.
 
 (* hence the two interpreters may be given different (sufficient) amounts of fuel *)
-Theorem C19_memo_safe_any_fuel_partial :
+Theorem C19_memo_safe_any_fuel :
   forall g cfg orc f f' input,
     ctx_constant g = true ->
-    c_skipws cfg = true \/ g_comments g = None ->
     not_aborted (run g cfg orc false f input) -> f <= f' ->
     run g cfg orc true f' input = run g cfg orc false f input.
 Proof. exact memo_safe_any_fuel. Qed.
-Print Assumptions C19_memo_safe_any_fuel_partial.
+Print Assumptions C19_memo_safe_any_fuel.
 
 (* non-vacuity with a Comment rule: `Model: xs+=X[','] ';' | xs+=X[','] '.'; X: 'x' | /\d+/;
    Comment: /\/\/.*?$/;` accepts `x, // c\n 1, x.` with memoization on *)
